@@ -218,13 +218,18 @@ impl TransportConstraint {
                 TravelTime::Departure(departure),
             );
 
-        let latest_departure_at_target = latest_arr_time_at_next
-            - self.transport.duration(
-                route,
-                target.place.location,
-                next_act_location,
-                TravelTime::Arrival(latest_arr_time_at_next),
-            );
+        let latest_departure_at_target = if next.is_some() {
+            latest_arr_time_at_next
+                - self.transport.duration(
+                    route,
+                    target.place.location,
+                    next_act_location,
+                    TravelTime::Arrival(latest_arr_time_at_next),
+                )
+        } else {
+            // open vrp: the last activity has to be finished by the shift end, not by the end of its own time window
+            actor.detail.time.end
+        };
 
         let latest_arr_time_at_target =
             target.place.time.end.min(self.activity.estimate_arrival(route, target, latest_departure_at_target));
